@@ -275,6 +275,7 @@ func runUfs(c *Case, res *result) (err error) {
 			if f.op.Kind == "late" {
 				k.addHold(f.who, "process.enter", connWho(vid), "close.exit", lateTimeout)
 			}
+			before := inUfsOpen()
 			if err := vc.Send(m); err != nil {
 				return &hangError{"harness: " + err.Error()}
 			}
@@ -287,7 +288,6 @@ func runUfs(c *Case, res *result) (err error) {
 			}
 			// fifo: wait until a goroutine sits in the open(2) below Ufs.Open,
 			// or the request was answered (fid unknown at this cut, not a FIFO …)
-			before := inUfsOpen()
 			ok := waitFor(hangT, func() bool {
 				if k.count(f.who, "respond.posted") > 0 {
 					return true
@@ -346,7 +346,7 @@ func runUfs(c *Case, res *result) (err error) {
 	default:
 		end.FailPeer(errInjected)
 	}
-	if k.wait(connWho(vid), "close.exit", 1, closeWait) {
+	if closeSettled(k, vid, closeWait) {
 		res.labels = append(res.labels, "close finished before the (remaining) requests were released")
 	} else {
 		res.labels = append(res.labels, "close still in progress when the requests were released")
@@ -508,7 +508,7 @@ func inUfsOpen() int {
 
 // ---------------------------------------------------------------------------
 
-func genUfsCase(t *rapid.T) *Case {
+func genUfsCase(t *rapid.T, maxObj int, enum bool) *Case {
 	c := &Case{
 		Variant: "ufs",
 		Dotu:    rapid.Bool().Draw(t, "dotu"),
@@ -516,7 +516,7 @@ func genUfsCase(t *rapid.T) *Case {
 		Kind:    rapid.SampledFrom([]string{"eof", "eof", "err", "err", "half"}).Draw(t, "cutkind"),
 	}
 	c.Ops = append(c.Ops, UOp{Kind: "attach", Fid: 0})
-	n := rapid.IntRange(1, 7).Draw(t, "nobj")
+	n := rapid.IntRange(1, maxObj).Draw(t, "nobj")
 	var flights []UOp
 	for j := 1; j <= n; j++ {
 		fid := uint32(j)
@@ -570,18 +570,18 @@ func genUfsCase(t *rapid.T) *Case {
 				continue
 			}
 		}
-		if hx.IsKnown(FindCloseVsInflight) && rapid.IntRange(0, 7).Draw(t, "keepBu") > 0 {
+		if hx.IsKnown(FindCloseVsInflight) && (enum || rapid.IntRange(0, 7).Draw(t, "keepBu") > 0) {
 			hx.Excluded(FindCloseVsInflight)
 			continue
 		}
 		c.Ops = append(c.Ops, f)
 	}
 	c.Pipe = rapid.SampledFrom([]int{0, 0, 1, 2, 3}).Draw(t, "pipe")
-	if hx.IsKnown(FindRespondBlocks) && c.Maxpend == 0 && rapid.IntRange(0, 7).Draw(t, "keepAu") > 0 {
+	if hx.IsKnown(FindRespondBlocks) && c.Maxpend == 0 && (enum || rapid.IntRange(0, 15).Draw(t, "keepAu") > 0) {
 		c.Maxpend = 16
 		hx.Excluded(FindRespondBlocks)
 	}
-	if hx.IsKnown(FindCloseVsInflight) && c.Pipe > 0 && rapid.IntRange(0, 7).Draw(t, "keepBp") > 0 {
+	if hx.IsKnown(FindCloseVsInflight) && c.Pipe > 0 && (enum || rapid.IntRange(0, 7).Draw(t, "keepBp") > 0) {
 		c.Pipe = 0
 		hx.Excluded(FindCloseVsInflight)
 	}
@@ -603,7 +603,7 @@ func ufsHistFrames(c *Case) [][]byte {
 // and directories.
 func TestPropUfs(t *testing.T) {
 	hx.Check(t, "ufs", hx.N(60, 800), func(t *rapid.T) {
-		c := genUfsCase(t)
+		c := genUfsCase(t, 8, false)
 		c.Cut = drawCut(t, ufsHistFrames(c))
 		if err := execute("ufs", c); err != nil {
 			hx.Failf(t, "ufs", c, "%v", err)
@@ -613,8 +613,27 @@ func TestPropUfs(t *testing.T) {
 
 // TestEnumUfsPrefixes: every prefix of a drawn Ufs session.
 func TestEnumUfsPrefixes(t *testing.T) {
-	hx.Check(t, "ufs-prefixes", hx.N(1, 12), func(t *rapid.T) {
-		c := genUfsCase(t)
+	maxStream := 170
+	if hx.Thorough() {
+		maxStream = 400
+	}
+	hx.Check(t, "ufs-prefixes", hx.N(1, 10), func(t *rapid.T) {
+		c := genUfsCase(t, 5, true)
+		// every offset is enumerated: keep the session short (the requests
+		// executing at the cut are kept)
+		for streamLen(ufsHistFrames(c)) > maxStream {
+			cutAt := -1
+			for i := len(c.Ops) - 1; i > 0; i-- {
+				if c.Ops[i].Kind != "fifo" && c.Ops[i].Kind != "late" {
+					cutAt = i
+					break
+				}
+			}
+			if cutAt < 0 {
+				break
+			}
+			c.Ops = append(c.Ops[:cutAt:cutAt], c.Ops[cutAt+1:]...)
+		}
 		total := streamLen(ufsHistFrames(c))
 		for cut := 0; cut <= total; cut++ {
 			for _, kind := range []string{"eof", "err"} {
@@ -627,6 +646,7 @@ func TestEnumUfsPrefixes(t *testing.T) {
 		}
 		hx.ExtraAdd("ufs_sessions_with_every_prefix_cut", 1)
 	})
+	hx.Exhaustive("per drawn Ufs session: every byte offset of the stream x {EOF, read/write error}")
 }
 
 var _ = time.Second
